@@ -1,5 +1,6 @@
 (* C06 - proofs.  Stdlib only. *)
 From CfdmV Require Import Common.Base C06.Model C06.Spec.
+From CfdmV Require Common.PySlice.
 
 Ltac splits := repeat match goal with |- _ /\ _ => split end.
 
@@ -405,6 +406,16 @@ End Gathered.
 (* ------------------------------------------------------------------ *)
 (* Field.compress then read                                             *)
 (* ------------------------------------------------------------------ *)
+Lemma Forall2_nth_error : forall {B C} (R : B -> C -> Prop) l l',
+  length l = length l' ->
+  (forall k x y, nth_error l k = Some x -> nth_error l' k = Some y -> R x y) ->
+  Forall2 R l l'.
+Proof.
+  induction l as [|x r IH]; intros [|y r'] Hl H; try discriminate; constructor.
+  - apply (H 0%nat); reflexivity.
+  - apply IH; [simpl in Hl; lia|]. intros k a b Ha Hb. apply (H (S k)); assumption.
+Qed.
+
 Section Roundtrip.
 Context {V : Type}.
 Notation cell := (option V).
@@ -438,22 +449,23 @@ Lemma pack_cons : forall {B} c cs (r : list B) rs,
   pack (c :: cs) (r :: rs) = firstn c r ++ pack cs rs.
 Proof. reflexivity. Qed.
 
-Definition fits (w : nat) (s r : list cell) : Prop :=
-  (derive_count r <= derive_count s)%nat /\ length s = w /\ length r = w.
+(* [c] is an admissible count for row [r] of width [w]: nothing of [r] lies
+   beyond it *)
+Definition covers (w : nat) (c : nat) (r : list cell) : Prop :=
+  (derive_count r <= c)%nat /\ (c <= w)%nat /\ length r = w.
 
-Lemma assemble_pack : forall w (src rows : list (list cell)) (pre : list cell),
-  Forall2 (fits w) src rows ->
-  assemble None w (length rows) (contig_selectors (length pre) (map derive_count src))
-           (pre ++ pack (map derive_count src) rows) = Ok rows.
+Lemma assemble_pack : forall w (counts : list nat) (rows : list (list cell)) (pre : list cell),
+  Forall2 (covers w) counts rows ->
+  assemble None w (length rows) (contig_selectors (length pre) counts)
+           (pre ++ pack counts rows) = Ok rows.
 Proof.
-  intros w src rows pre H. revert pre. induction H as [|s r src rows [Hc [Hs Hr]] HF IH]; intro pre.
+  intros w counts rows pre H. revert pre.
+  induction H as [|c r counts rows [Hc [Hcw Hr]] HF IH]; intro pre.
   - reflexivity.
-  - simpl map. rewrite pack_cons. simpl length. simpl contig_selectors.
-    set (c := derive_count s) in *.
-    assert (Hcw : (c <= w)%nat) by (subst c; rewrite <- Hs; apply derive_count_le_length).
+  - rewrite pack_cons. simpl length. simpl contig_selectors.
     assert (Hfl : length (firstn c r) = c) by (rewrite firstn_length; lia).
     cbn [assemble select].
-    assert (Esel : slice_list (length pre) (length pre + c) (pre ++ firstn c r ++ pack (map derive_count src) rows)
+    assert (Esel : slice_list (length pre) (length pre + c) (pre ++ firstn c r ++ pack counts rows)
                    = firstn c r).
     { unfold slice_list. replace (length pre + c - length pre)%nat with c by lia.
       rewrite skipn_app, skipn_all, Nat.sub_diag. simpl.
@@ -466,36 +478,112 @@ Proof.
       - simpl in Hfl. rewrite <- Hfl in T. simpl in T. rewrite Nat.sub_0_r in T. rewrite T. reflexivity.
       - rewrite Hfl. destruct (Nat.leb_spec c w); [|lia]. rewrite T. reflexivity. }
     rewrite Erow. cbn [rbind].
-    replace (pre ++ firstn c r ++ pack (map derive_count src) rows)
-      with ((pre ++ firstn c r) ++ pack (map derive_count src) rows) by (rewrite app_assoc; reflexivity).
+    replace (pre ++ firstn c r ++ pack counts rows)
+      with ((pre ++ firstn c r) ++ pack counts rows) by (rewrite app_assoc; reflexivity).
     replace (length pre + c)%nat with (length (pre ++ firstn c r)) by (rewrite app_length, Hfl; reflexivity).
     rewrite IH. reflexivity.
 Qed.
 
 (* compress('contiguous') then read: identity on values and mask, for every
-   rectangular masked 2-d array (all-missing rows included) and every
-   construct whose values lie within the derived counts. *)
-Lemma roundtrip_contiguous : forall w (src rows : list (list cell)),
-  Forall2 (fits w) src rows ->
-  contiguous_decode None (length rows) w (map derive_count src)
-                    (pack (map derive_count src) rows) = Ok rows.
+   rectangular masked 2-d array (all-missing rows included) packed with
+   counts that cover it. *)
+Lemma roundtrip_contiguous : forall w counts (rows : list (list cell)),
+  Forall2 (covers w) counts rows ->
+  contiguous_decode None (length rows) w counts (pack counts rows) = Ok rows.
 Proof.
-  intros w src rows H. unfold contiguous_decode.
-  apply (assemble_pack w src rows [] H).
+  intros w counts rows H. unfold contiguous_decode.
+  apply (assemble_pack w counts rows [] H).
 Qed.
 
-Lemma fits_refl : forall w (rows : list (list cell)),
-  Forall (fun r => length r = w) rows -> Forall2 (fits w) rows rows.
+(* ---- the counts Field.compress derives cover the field data and every
+   construct on the same axes ---- *)
+Definition rect (n w : nat) (a : list (list cell)) : Prop :=
+  length a = n /\ Forall (fun r => length r = w) a.
+
+Lemma zip_max_length : forall a b, length b = length a -> length (zip_max a b) = length a.
 Proof.
-  intros w rows H. induction H; constructor; auto. unfold fits. auto.
+  intros a b H. unfold zip_max. rewrite map_length, combine_length. lia.
 Qed.
 
-Lemma roundtrip_contiguous_field : forall w (rows : list (list cell)),
-  Forall (fun r => length r = w) rows ->
-  let '(counts, data) := compress_contiguous rows rows in
-  contiguous_decode None (length rows) w counts data = Ok rows.
+Lemma zip_max_nth : forall a b k, length b = length a ->
+  nth k (zip_max a b) 0%nat = Nat.max (nth k a 0%nat) (nth k b 0%nat).
 Proof.
-  intros w rows H. unfold compress_contiguous. apply roundtrip_contiguous, fits_refl, H.
+  induction a as [|x a IH]; intros [|y b] k H; try discriminate.
+  - destruct k; reflexivity.
+  - destruct k; simpl; [reflexivity|]. apply IH. simpl in H. lia.
+Qed.
+
+(* [cnt] bounds row by row the derived counts of [a], within the width *)
+Definition bounds_counts (w : nat) (cnt : list nat) (a : list (list cell)) : Prop :=
+  forall k, (k < length a)%nat ->
+    (derive_count (nth k a []) <= nth k cnt 0 <= w)%nat.
+
+Lemma fold_counts_inv : forall n w (others : list (list (list cell))) (cnt : list nat),
+  length cnt = n -> Forall (rect n w) others ->
+  (forall k, (nth k cnt 0 <= w)%nat) ->
+  let cnt' := fold_left (fun c o => zip_max c (map derive_count o)) others cnt in
+  length cnt' = n /\ (forall k, (nth k cnt 0 <= nth k cnt' 0 <= w)%nat) /\
+  Forall (bounds_counts w cnt') others.
+Proof.
+  intros n w others. induction others as [|o r IH]; intros cnt Hl HF Hw.
+  - simpl. split; [exact Hl|]. split; [intro k; specialize (Hw k); lia|constructor].
+  - inversion HF as [|? ? [Ho1 Ho2] HF']; subst. simpl fold_left.
+    set (c1 := zip_max cnt (map derive_count o)).
+    assert (Hlo : length (map derive_count o) = length cnt) by (rewrite map_length; lia).
+    assert (Hl1 : length c1 = length cnt) by (unfold c1; rewrite zip_max_length; lia).
+    assert (Hdo : forall k, (nth k (map derive_count o) 0 <= w)%nat).
+    { intro k. destruct (Nat.lt_ge_cases k (length o)) as [Hk|Hk].
+      - rewrite (nth_indep _ 0%nat (derive_count (@nil cell))) by (rewrite map_length; exact Hk).
+        rewrite map_nth. rewrite Forall_forall in Ho2.
+        rewrite <- (Ho2 (nth k o [])) by (apply nth_In; exact Hk). apply derive_count_le_length.
+      - rewrite nth_overflow by (rewrite map_length; exact Hk). lia. }
+    assert (Hw1 : forall k, (nth k c1 0 <= w)%nat).
+    { intro k. unfold c1. rewrite zip_max_nth by exact Hlo. specialize (Hw k). specialize (Hdo k). lia. }
+    destruct (IH c1 Hl1 HF' Hw1) as [A [B C]]. cbv zeta in A, B, C. cbv zeta. fold c1.
+    split; [exact A|]. split.
+    + intro k. specialize (B k). unfold c1 in B at 1. rewrite zip_max_nth in B by exact Hlo. lia.
+    + constructor; [|exact C]. intros k Hk. specialize (B k). unfold c1 in B at 1.
+      rewrite zip_max_nth in B by exact Hlo.
+      rewrite (nth_indep (map derive_count o) 0%nat (derive_count (@nil cell))) in B
+        by (rewrite map_length; exact Hk).
+      rewrite map_nth in B. lia.
+Qed.
+
+Lemma bounds_covers : forall w (a : list (list cell)) (cnt : list nat),
+  length cnt = length a -> Forall (fun r => length r = w) a -> bounds_counts w cnt a ->
+  Forall2 (covers w) cnt a.
+Proof.
+  intros w a cnt Hl Hr Hb. apply Forall2_nth_error; [exact Hl|].
+  intros k c r Hc Hrr.
+  assert (Hk : (k < length a)%nat) by (apply nth_error_Some; rewrite Hrr; discriminate).
+  specialize (Hb k Hk).
+  rewrite (nth_error_nth _ _ _ Hc), (nth_error_nth _ _ _ Hrr) in Hb.
+  unfold covers. rewrite Forall_forall in Hr. specialize (Hr r (nth_error_In _ _ Hrr)). lia.
+Qed.
+
+(* The counts of the repaired Field.compress cover the field data and every
+   construct spanning the same axes: no guard is left. *)
+Lemma derive_counts_cover : forall n w (rows : list (list cell)) others,
+  rect n w rows -> Forall (rect n w) others ->
+  Forall2 (covers w) (derive_counts rows others) rows /\
+  Forall (fun o => Forall2 (covers w) (derive_counts rows others) o) others.
+Proof.
+  intros n w rows others [Hn Hr] HF. unfold derive_counts.
+  assert (Hw0 : forall k, (nth k (map derive_count rows) 0 <= w)%nat).
+  { intro k. destruct (Nat.lt_ge_cases k (length rows)) as [Hk|Hk].
+    - rewrite (nth_indep _ 0%nat (derive_count (@nil cell))) by (rewrite map_length; exact Hk).
+      rewrite map_nth. rewrite Forall_forall in Hr.
+      rewrite <- (Hr (nth k rows [])) by (apply nth_In; exact Hk). apply derive_count_le_length.
+    - rewrite nth_overflow by (rewrite map_length; exact Hk). lia. }
+  destruct (fold_counts_inv n w others (map derive_count rows)) as [A [B C]];
+    [rewrite map_length; exact Hn|exact HF|exact Hw0|]. cbv zeta in A, B, C.
+  split.
+  - apply bounds_covers; [lia|exact Hr|]. intros k Hk. specialize (B k).
+    rewrite (nth_indep (map derive_count rows) 0%nat (derive_count (@nil cell))) in B
+      by (rewrite map_length; exact Hk).
+    rewrite map_nth in B. exact B.
+  - rewrite Forall_forall in *. intros o Ho. destruct (HF o Ho) as [Ho1 Ho2].
+    apply bounds_covers; [lia|exact Ho2|apply C, Ho].
 Qed.
 
 End Roundtrip.
@@ -571,16 +659,6 @@ Proof.
   - apply Forall_forall. intros p Hp. apply in_seq in Hp. lia.
 Qed.
 
-Lemma Forall2_nth_error : forall {B C} (R : B -> C -> Prop) l l',
-  length l = length l' ->
-  (forall k x y, nth_error l k = Some x -> nth_error l' k = Some y -> R x y) ->
-  Forall2 R l l'.
-Proof.
-  induction l as [|x r IH]; intros [|y r'] Hl H; try discriminate; constructor.
-  - apply (H 0%nat); reflexivity.
-  - apply IH; [simpl in Hl; lia|]. intros k a b Ha Hb. apply (H (S k)); assumption.
-Qed.
-
 Lemma contig_selectors_length : forall counts start, length (contig_selectors start counts) = length counts.
 Proof. induction counts; intros; simpl; auto. Qed.
 
@@ -626,18 +704,24 @@ Proof.
     pose proof (sum_firstn_nth_le counts k). lia.
 Qed.
 
-(* compress('indexed') then read: identity, all-missing features included *)
-Lemma roundtrip_indexed : forall w (src rows : list (list cell)),
-  Forall2 (fits w) src rows ->
-  indexed_decode None (length rows) w (index_of_counts 0 (map derive_count src))
-                 (pack (map derive_count src) rows) = Ok rows.
+Lemma Forall2_length_eq : forall {B C} (R : B -> C -> Prop) l l', Forall2 R l l' -> length l = length l'.
+Proof. intros B C R l l' H. induction H; simpl; auto. Qed.
+
+Lemma covers_length_pack : forall w counts (rows : list (list cell)),
+  Forall2 (covers w) counts rows -> length (pack counts rows) = sum counts.
 Proof.
-  intros w src rows H.
-  assert (Hl : length (map derive_count src) = length rows).
-  { rewrite map_length. clear -H. induction H; simpl; auto. }
-  assert (Hp : length (pack (map derive_count src) rows) = sum (map derive_count src)).
-  { apply length_pack. clear Hl. induction H as [|s r ss rs [Hc [Hs Hr]] HF IH]; constructor; auto.
-    rewrite Hr, <- Hs. apply derive_count_le_length. }
+  intros w counts rows H. apply length_pack.
+  induction H as [|c r cs rs [Hc [Hcw Hr]] HF IH]; constructor; auto. lia.
+Qed.
+
+(* compress('indexed') then read: identity, all-missing features included *)
+Lemma roundtrip_indexed : forall w counts (rows : list (list cell)),
+  Forall2 (covers w) counts rows ->
+  indexed_decode None (length rows) w (index_of_counts 0 counts) (pack counts rows) = Ok rows.
+Proof.
+  intros w counts rows H.
+  pose proof (Forall2_length_eq _ _ _ H) as Hl.
+  pose proof (covers_length_pack w counts rows H) as Hp.
   rewrite indexed_as_contiguous by (auto; lia).
   apply roundtrip_contiguous, H.
 Qed.
@@ -880,8 +964,76 @@ Qed.
 End IC.
 
 (* ------------------------------------------------------------------ *)
-(* compress('indexed_contiguous'): which profiles are stored            *)
+(* compress('indexed_contiguous') then read: the full round trip         *)
 (* ------------------------------------------------------------------ *)
+Lemma sum_app : forall a b, sum (a ++ b) = (sum a + sum b)%nat.
+Proof. induction a as [|x a IH]; intro b; [reflexivity|]. unfold sum in *. simpl. rewrite IH. lia. Qed.
+
+Lemma sum_repeat_0 : forall n, sum (repeat 0%nat n) = 0%nat.
+Proof. induction n; [reflexivity|]. unfold sum in *. simpl. exact IHn. Qed.
+
+Lemma length_concat_sum : forall {B} (bs : list (list B)),
+  length (concat bs) = sum (map (@length B) bs).
+Proof.
+  induction bs as [|b r IH]; [reflexivity|]. simpl. rewrite app_length, IH. reflexivity.
+Qed.
+
+(* position sum(len(b) for b in bs[:i]) + j of concat bs is position j of bs[i] *)
+Lemma firstn_concat_at : forall {B} (bs : list (list B)) i j b,
+  nth_error bs i = Some b -> (j <= length b)%nat ->
+  firstn (sum (map (@length B) (firstn i bs)) + j) (concat bs) = concat (firstn i bs) ++ firstn j b.
+Proof.
+  induction bs as [|a r IH]; intros i j b Hb Hj; [destruct i; discriminate|].
+  destruct i.
+  - inversion Hb; subst. simpl. rewrite firstn_app.
+    replace (j - length b)%nat with 0%nat by lia. simpl. rewrite app_nil_r. reflexivity.
+  - simpl in Hb. cbn [firstn map concat]. unfold sum. cbn [fold_right].
+    fold (sum (map (@length B) (firstn i r))).
+    rewrite <- Nat.add_assoc, firstn_app_2, (IH i j b Hb Hj), app_assoc. reflexivity.
+Qed.
+
+Lemma nth_error_concat_at : forall {B} (bs : list (list B)) i j b,
+  nth_error bs i = Some b -> (j < length b)%nat ->
+  nth_error (concat bs) (sum (map (@length B) (firstn i bs)) + j) = nth_error b j.
+Proof.
+  induction bs as [|a r IH]; intros i j b Hb Hj; [destruct i; discriminate|].
+  destruct i.
+  - inversion Hb; subst. simpl. apply nth_error_app1. exact Hj.
+  - simpl in Hb. cbn [firstn map concat]. unfold sum. cbn [fold_right].
+    fold (sum (map (@length B) (firstn i r))).
+    rewrite nth_error_app2 by lia.
+    replace (length a + sum (map (@length B) (firstn i r)) + j - length a)%nat
+      with (sum (map (@length B) (firstn i r)) + j)%nat by lia.
+    apply IH; assumption.
+Qed.
+
+Lemma sum_map_length_uniform : forall {B} n (bs : list (list B)),
+  Forall (fun b => length b = n) bs -> sum (map (@length B) bs) = (length bs * n)%nat.
+Proof.
+  intros B n bs H. induction H as [|b r Hb HF IH]; [reflexivity|].
+  unfold sum in *. simpl. rewrite IH, Hb. reflexivity.
+Qed.
+
+Lemma Forall_firstn : forall {B} (P : B -> Prop) n l, Forall P l -> Forall P (firstn n l).
+Proof.
+  intros B P n l H. revert n. induction H; intros [|n]; simpl; constructor; auto.
+Qed.
+
+Lemma nth_error_firstn_lt : forall {B} (l : list B) n j, (j < n)%nat ->
+  nth_error (firstn n l) j = nth_error l j.
+Proof.
+  induction l as [|x l IH]; intros n j H; [rewrite firstn_nil; reflexivity|].
+  destruct n; [lia|]. destruct j; simpl; [reflexivity|]. apply IH. lia.
+Qed.
+
+(* the stored profiles of every feature *)
+Definition trim_profiles (c : list nat) : list nat := firstn (n_profiles c) c.
+
+Lemma kept_profiles_map : forall cs, kept_profiles cs = map trim_profiles cs.
+Proof.
+  unfold kept_profiles. induction cs as [|c r IH]; [reflexivity|]. simpl. rewrite IH. reflexivity.
+Qed.
+
 Lemma n_profiles_le_length : forall cs, (n_profiles cs <= length cs)%nat.
 Proof.
   induction cs as [|c r IH]; simpl; [lia|].
@@ -918,24 +1070,439 @@ Proof.
   - inversion H; subst. simpl. apply IH. reflexivity.
 Qed.
 
+Lemma trim_profiles_length : forall c, length (trim_profiles c) = n_profiles c.
+Proof. intro c. unfold trim_profiles. rewrite firstn_length. pose proof (n_profiles_le_length c). lia. Qed.
+
+Lemma sum_trim_profiles : forall c, sum (trim_profiles c) = sum c.
+Proof.
+  intro c. rewrite <- (n_profiles_trim c) at 2. rewrite sum_app, sum_repeat_0. unfold trim_profiles. lia.
+Qed.
+
+Lemma sum_concat_trim : forall cs, sum (concat (map trim_profiles cs)) = sum (concat cs).
+Proof.
+  induction cs as [|c r IH]; [reflexivity|]. simpl. rewrite !sum_app, IH, sum_trim_profiles. reflexivity.
+Qed.
+
+Lemma nth_beyond_n_profiles : forall c j, (n_profiles c <= j)%nat -> nth j c 0%nat = 0%nat.
+Proof.
+  intros c j H. rewrite <- (firstn_skipn j c) at 1.
+  destruct (Nat.lt_ge_cases j (length c)) as [Hj|Hj].
+  - rewrite app_nth2 by (rewrite firstn_length; lia).
+    rewrite firstn_length, skipn_n_profiles by exact H.
+    replace (j - Nat.min j (length c))%nat with 0%nat by lia.
+    destruct (length c - j)%nat; reflexivity.
+  - rewrite firstn_skipn. apply nth_overflow. exact Hj.
+Qed.
+
+Lemma index_of_counts_length : forall l k, length (index_of_counts k l) = sum l.
+Proof.
+  induction l as [|c r IH]; intro k; [reflexivity|].
+  simpl. rewrite app_length, repeat_length, IH. reflexivity.
+Qed.
+
+Lemma chunks_concat : forall {B} k (bs : list (list B)),
+  Forall (fun b => length b = k) bs -> chunks (length bs) k (concat bs) = bs.
+Proof.
+  intros B k bs H. induction H as [|b r Hb HF IH]; [reflexivity|].
+  simpl. rewrite firstn_app, <- Hb, firstn_all, Nat.sub_diag. simpl. rewrite app_nil_r.
+  rewrite skipn_app, skipn_all, Nat.sub_diag. simpl. rewrite Hb, IH. reflexivity.
+Qed.
+
+Section RoundtripIC.
+Context {V : Type}.
+Notation cell := (option V).
+
+(* [cs] gives every feature [nprof] profile counts that cover its profiles *)
+Definition covers3 (nprof w : nat) (cs : list (list nat)) (rows : list (list (list cell))) : Prop :=
+  Forall2 (fun c f => length c = nprof /\ Forall2 (covers w) c f) cs rows.
+
+Lemma covers3_flat : forall nprof w cs rows, covers3 nprof w cs rows ->
+  Forall2 (covers w) (concat cs) (concat rows) /\
+  Forall (fun c => length c = nprof) cs /\ Forall (fun f => length f = nprof) rows /\
+  length cs = length rows.
+Proof.
+  intros nprof w cs rows H. induction H as [|c f cs rows [Hc Hf] HF [IH1 [IH2 [IH3 IH4]]]].
+  - repeat split; constructor.
+  - splits.
+    + simpl. apply Forall2_app; assumption.
+    + constructor; assumption.
+    + constructor; [|assumption]. rewrite <- (Forall2_length_eq _ _ _ Hf). exact Hc.
+    + simpl. rewrite IH4. reflexivity.
+Qed.
+
+Lemma roundtrip_ic : forall nprof w cs (rows : list (list (list cell))),
+  covers3 nprof w cs rows ->
+  let '(counts, index, data) := compress_ic cs rows in
+  ic_decode None (length rows) nprof w counts index data = Ok rows.
+Proof.
+  intros nprof w cs rows H. unfold compress_ic. rewrite kept_profiles_map.
+  destruct (covers3_flat nprof w cs rows H) as [Hflat [Hcs [Hrows Hlen]]].
+  set (blocks := map trim_profiles cs).
+  set (np := map n_profiles cs).
+  set (cv := concat blocks). set (iv := index_of_counts 0 np).
+  set (cd := pack (concat cs) (concat rows)).
+  set (nfeat := length rows).
+  assert (Hnp : map (@length nat) blocks = np).
+  { unfold blocks, np. rewrite map_map. apply map_ext. apply trim_profiles_length. }
+  assert (Hlcv : length cv = sum np) by (unfold cv; rewrite length_concat_sum, Hnp; reflexivity).
+  assert (Hliv : length iv = sum np) by (unfold iv; apply index_of_counts_length).
+  assert (Hlnp : length np = nfeat) by (unfold np; rewrite map_length; exact Hlen).
+  assert (Hnpi : forall i c, nth_error cs i = Some c ->
+            nth i np 0%nat = n_profiles c /\ (n_profiles c <= nprof)%nat).
+  { intros i c Hc. split.
+    - unfold np. rewrite (nth_indep _ 0%nat (n_profiles [])) by
+        (rewrite map_length; apply nth_error_Some; rewrite Hc; discriminate).
+      rewrite map_nth. f_equal. apply nth_error_nth with (d := []) in Hc. exact Hc.
+    - rewrite Forall_forall in Hcs. rewrite <- (Hcs c (nth_error_In _ _ Hc)).
+      apply n_profiles_le_length. }
+  (* the positions of feature i in the index variable *)
+  assert (Hpos : forall i, (i < nfeat)%nat ->
+            positions_eq (Z.of_nat i) iv 0 = seq (sum (firstn i np)) (nth i np 0%nat)).
+  { intros i Hi. unfold iv. rewrite positions_block. simpl.
+    rewrite Nat.sub_0_r. replace (i <? length np)%nat with true; [reflexivity|].
+    symmetry. apply Nat.ltb_lt. lia. }
+  unfold ic_decode, ic_decode_with.
+  rewrite ic_selectors_ok by (unfold cumsum; rewrite cumsum_from_length; lia).
+  cbn [rbind].
+  set (sels := concat (map (fsel nprof (cumsum cv) iv) (instances nfeat))).
+  assert (Hocc : forall i, (i < nfeat)%nat -> (count_occ Z.eq_dec iv (Z.of_nat i) <= nprof)%nat).
+  { intros i Hi. rewrite <- length_positions_eq with (p := 0%nat), Hpos, seq_length by exact Hi.
+    destruct (nth_error cs i) as [c|] eqn:E.
+    - destruct (Hnpi i c E) as [E1 E2]. rewrite E1. exact E2.
+    - apply nth_error_None in E. lia. }
+  assert (HF : Forall (fun b => length b = nprof) (map (fsel nprof (cumsum cv) iv) (instances nfeat))).
+  { apply Forall_forall. intros b Hb. apply in_map_iff in Hb as [z [Hz Hin]]. subst b.
+    unfold instances in Hin. apply in_map_iff in Hin as [i [Hi Hin]]. subst z.
+    apply in_seq in Hin. apply fsel_length, Hocc. lia. }
+  assert (Hsl : length sels = (nfeat * nprof)%nat).
+  { unfold sels. rewrite length_concat_sum, (sum_map_length_uniform nprof) by exact HF.
+    unfold instances. rewrite !map_length, seq_length. reflexivity. }
+  assert (Hcl : length (concat cs) = (nfeat * nprof)%nat).
+  { rewrite length_concat_sum, (sum_map_length_uniform nprof) by exact Hcs. rewrite Hlen. reflexivity. }
+  assert (Hrl : length (concat rows) = (nfeat * nprof)%nat).
+  { rewrite length_concat_sum, (sum_map_length_uniform nprof) by exact Hrows. reflexivity. }
+  assert (Hdata : length cd = sum (concat cs)) by (apply (covers_length_pack w), Hflat).
+  (* slot by slot the selections are those of the contiguous decoding of all profiles *)
+  assert (Hext : Forall2 (fun s s' => select None s cd = select None s' cd)
+                   sels (contig_selectors 0 (concat cs))).
+  { apply Forall2_nth_error; [rewrite contig_selectors_length; lia|].
+    intros r x y Hx Hy.
+    assert (Hr : (r < nfeat * nprof)%nat).
+    { rewrite <- Hsl. apply nth_error_Some. rewrite Hx. discriminate. }
+    assert (Hn : nprof <> 0%nat) by (intro; subst nprof; lia).
+    set (i := (r / nprof)%nat). set (j := (r mod nprof)%nat).
+    assert (Hi : (i < nfeat)%nat) by (apply Nat.div_lt_upper_bound; [exact Hn|lia]).
+    assert (Hj : (j < nprof)%nat) by (apply Nat.mod_upper_bound, Hn).
+    assert (Er : r = (i * nprof + j)%nat) by (pose proof (Nat.div_mod r nprof Hn); unfold i, j; lia).
+    destruct (nth_error cs i) as [c|] eqn:Ec; [|apply nth_error_None in Ec; lia].
+    destruct (Hnpi i c Ec) as [Enp Hle].
+    assert (Hlc : length c = nprof).
+    { rewrite Forall_forall in Hcs. apply Hcs. eapply nth_error_In; eauto. }
+    (* the contiguous selector of slot r *)
+    rewrite contig_selectors_nth in Hy.
+    assert (Ecc : nth_error (concat cs) r = nth_error c j).
+    { rewrite Er, (nth_error_concat_uniform nprof) by assumption. rewrite Ec. reflexivity. }
+    rewrite Ecc in Hy.
+    destruct (nth_error c j) as [cj|] eqn:Ecj; [|apply nth_error_None in Ecj; lia].
+    inversion Hy; subst y. clear Hy. simpl plus.
+    assert (Esum : sum (firstn r (concat cs)) = (sum (concat (firstn i cs)) + sum (firstn j c))%nat).
+    { assert (Ei : (i * nprof)%nat = sum (map (@length nat) (firstn i cs))).
+      { rewrite (sum_map_length_uniform nprof) by (apply Forall_firstn; exact Hcs).
+        rewrite firstn_length. replace (Nat.min i (length cs)) with i by lia. reflexivity. }
+      rewrite Er, Ei, (firstn_concat_at cs i j c Ec) by lia. apply sum_app. }
+    (* the selector the indexed contiguous array builds for slot r *)
+    unfold sels in Hx. rewrite Er, (nth_error_concat_uniform nprof) in Hx by assumption.
+    rewrite nth_error_map, nth_error_instances in Hx by exact Hi. simpl in Hx.
+    rewrite fsel_nth in Hx by (auto; lia).
+    inversion Hx; subst x. clear Hx.
+    rewrite find_occ_positions, Hpos, Enp by exact Hi.
+    destruct (Nat.lt_ge_cases j (n_profiles c)) as [Hjn|Hjn].
+    - rewrite (nth_error_nth' _ 0%nat) by (rewrite seq_length; exact Hjn).
+      rewrite seq_nth by exact Hjn.
+      set (p := (sum (firstn i np) + j)%nat).
+      assert (Eb : nth_error blocks i = Some (trim_profiles c)).
+      { unfold blocks. rewrite nth_error_map, Ec. reflexivity. }
+      assert (Epi : sum (firstn i np) = sum (map (@length nat) (firstn i blocks))).
+      { rewrite <- Hnp, firstn_map. reflexivity. }
+      assert (E1 : sum (firstn p cv) = sum (firstn r (concat cs))).
+      { unfold p, cv. rewrite Epi, (firstn_concat_at blocks i j _ Eb)
+          by (rewrite trim_profiles_length; lia).
+        rewrite sum_app, Esum. f_equal.
+        - unfold blocks. rewrite firstn_map. apply sum_concat_trim.
+        - unfold trim_profiles. rewrite firstn_firstn. f_equal. f_equal. lia. }
+      assert (E2 : nth p cv 0%nat = cj).
+      { assert (G : nth_error cv p = Some cj).
+        { unfold p, cv. rewrite Epi, (nth_error_concat_at blocks i j _ Eb)
+            by (rewrite trim_profiles_length; exact Hjn).
+          unfold trim_profiles. rewrite nth_error_firstn_lt by exact Hjn. exact Ecj. }
+        apply nth_error_nth with (d := 0%nat) in G. exact G. }
+      rewrite E1, E2. reflexivity.
+    - rewrite (proj2 (nth_error_None _ _)) by (rewrite seq_length; exact Hjn).
+      assert (Ez : cj = 0%nat).
+      { apply nth_error_nth with (d := 0%nat) in Ecj. rewrite <- Ecj.
+        apply nth_beyond_n_profiles. exact Hjn. }
+      subst cj. cbn [select]. unfold slice_list. rewrite Nat.add_0_r, !Nat.sub_diag. reflexivity. }
+  rewrite (assemble_ext None w cd sels (contig_selectors 0 (concat cs)) (nfeat * nprof) Hext).
+  rewrite <- Hrl.
+  change (contig_selectors 0 (concat cs)) with (contig_selectors (length (@nil cell)) (concat cs)).
+  change cd with ([] ++ cd). unfold cd.
+  rewrite (assemble_pack w (concat cs) (concat rows) [] Hflat). cbn [rbind].
+  unfold nfeat. rewrite (chunks_concat nprof rows Hrows). reflexivity.
+Qed.
+
+End RoundtripIC.
+
 (* ------------------------------------------------------------------ *)
-(* open finding, and non-vacuity examples                               *)
+(* file level: the variables written for a compressed field, decoded by  *)
+(* the independent CF decoder of Spec, give back the array               *)
+(* ------------------------------------------------------------------ *)
+Section FileLevel.
+Context {V : Type}.
+Notation cell := (option V).
+
+Lemma covers_le_width : forall w counts (rows : list (list cell)),
+  Forall2 (covers w) counts rows -> Forall (fun c => (c <= w)%nat) counts.
+Proof. intros w counts rows H. induction H as [|c r cs rs [_ [Hc _]] _ IH]; constructor; auto. Qed.
+
+Lemma file_decode_contiguous : forall w counts (rows : list (list cell)),
+  Forall2 (covers w) counts rows ->
+  forall i j, (i < length rows)%nat ->
+    contig_spec None counts (pack counts rows) i j = nth j (nth i rows []) None.
+Proof.
+  intros w counts rows H i j Hi.
+  destruct (contiguous_decode_spec None (length rows) w counts (pack counts rows)
+              (covers_le_width w counts rows H)) as [u [Hu [_ [_ Hn]]]].
+  rewrite (roundtrip_contiguous w counts rows H) in Hu. inversion Hu; subst u.
+  symmetry. apply Hn, Hi.
+Qed.
+
+Lemma count_occ_index_of_counts : forall counts k i,
+  count_occ Z.eq_dec (index_of_counts k counts) (Z.of_nat i) =
+  if (k <=? i)%nat && (i <? k + length counts)%nat then nth (i - k) counts 0%nat else 0%nat.
+Proof.
+  intros counts k i. rewrite <- length_positions_eq with (p := 0%nat), positions_block.
+  destruct ((k <=? i)%nat && (i <? k + length counts)%nat); [apply seq_length|reflexivity].
+Qed.
+
+Lemma file_decode_indexed : forall w counts (rows : list (list cell)),
+  Forall2 (covers w) counts rows ->
+  forall i j, (i < length rows)%nat ->
+    indexed_spec None (index_of_counts 0 counts) (pack counts rows) i j = nth j (nth i rows []) None.
+Proof.
+  intros w counts rows H i j Hi.
+  pose proof (covers_le_width w counts rows H) as Hw.
+  destruct (indexed_decode_spec None (length rows) w (index_of_counts 0 counts) (pack counts rows))
+    as [u [Hu [_ [_ Hn]]]].
+  - rewrite index_of_counts_length, (covers_length_pack w counts rows H). lia.
+  - intros k Hk. rewrite count_occ_index_of_counts. simpl. rewrite Nat.sub_0_r.
+    destruct (k <? length counts)%nat eqn:E; [|lia].
+    apply Nat.ltb_lt in E. rewrite Forall_forall in Hw. apply Hw, nth_In, E.
+  - rewrite (roundtrip_indexed w counts rows H) in Hu. inversion Hu; subst u.
+    symmetry. apply Hn, Hi.
+Qed.
+
+Lemma file_decode_ic : forall nprof w cs (rows : list (list (list cell))),
+  covers3 nprof w cs rows ->
+  let '(counts, index, data) := compress_ic cs rows in
+  forall i j k, (i < length rows)%nat -> (j < nprof)%nat ->
+    ic_spec None counts index data i j k = nth k (nth j (nth i rows []) []) None.
+Proof.
+  intros nprof w cs rows H.
+  pose proof (roundtrip_ic nprof w cs rows H) as R.
+  destruct (covers3_flat nprof w cs rows H) as [Hflat [Hcs [Hrows Hlen]]].
+  unfold compress_ic in *. rewrite kept_profiles_map in *.
+  intros i j k Hi Hj.
+  set (cv := concat (map trim_profiles cs)) in *.
+  set (iv := index_of_counts 0 (map n_profiles cs)) in *.
+  set (cd := pack (concat cs) (concat rows)) in *.
+  destruct (ic_decode_spec None (length rows) nprof w cv iv cd) as [u [Hu [_ [_ Hn]]]].
+  - unfold iv, cv. rewrite index_of_counts_length, length_concat_sum, map_map.
+    erewrite map_ext; [apply Nat.le_refl|]. intro c. symmetry. apply trim_profiles_length.
+  - unfold cv. apply Forall_concat. apply Forall_forall. intros b Hb.
+    apply in_map_iff in Hb as [c [Hc Hin]]. subst b. unfold trim_profiles. apply Forall_firstn.
+    (* every count of feature c is within the width *)
+    pose proof (covers_le_width w (concat cs) (concat rows) Hflat) as Hw.
+    rewrite Forall_forall in *. intros x Hx. apply Hw. apply in_concat. exists c. split; assumption.
+  - intros f Hf. unfold iv. rewrite count_occ_index_of_counts. simpl. rewrite Nat.sub_0_r, map_length.
+    destruct (f <? length cs)%nat eqn:E; [|lia]. apply Nat.ltb_lt in E.
+    rewrite (nth_indep _ 0%nat (n_profiles [])) by (rewrite map_length; exact E).
+    rewrite map_nth. rewrite Forall_forall in Hcs.
+    rewrite <- (Hcs (nth f cs [])) by (apply nth_In; exact E). apply n_profiles_le_length.
+  - rewrite R in Hu. inversion Hu; subst u. symmetry. apply Hn; assumption.
+Qed.
+
+End FileLevel.
+
+(* ------------------------------------------------------------------ *)
+(* subspaces of the uncompressed view                                    *)
+(* ------------------------------------------------------------------ *)
+(* the element of the full array that element [ks] of the selection shows *)
+Fixpoint pick (pos : list (list nat)) (ks : list nat) : list nat :=
+  match pos, ks with
+  | p :: pr, k :: kr => nth k p 0%nat :: pick pr kr
+  | _, _ => []
+  end.
+
+Definition in_shape (ks shape : list nat) : Prop := Forall2 (fun k n => (k < n)%nat) ks shape.
+
+Lemma ravel_lt : forall shape ks, in_shape ks shape -> (ravel shape ks < prod shape)%nat.
+Proof.
+  intros shape ks H. induction H as [|k n ks shape Hk HF IH]; simpl; [lia|].
+  fold (prod shape). nia.
+Qed.
+
+Lemma multi_indices_length : forall pos,
+  length (multi_indices pos) = prod (map (@length nat) pos).
+Proof.
+  induction pos as [|p r IH]; [reflexivity|]. cbn [multi_indices map prod fold_right].
+  fold (prod (map (@length nat) r)). rewrite <- IH. generalize (multi_indices r). intro m.
+  induction p as [|x p IHp]; [reflexivity|]. simpl. rewrite app_length, map_length, IHp. reflexivity.
+Qed.
+
+Lemma multi_indices_nth : forall pos ks, in_shape ks (map (@length nat) pos) ->
+  nth_error (multi_indices pos) (ravel (map (@length nat) pos) ks) = Some (pick pos ks).
+Proof.
+  induction pos as [|p r IH]; intros ks H.
+  - inversion H; subst. reflexivity.
+  - inversion H as [|k n kr sh Hk HF]; subst. cbn [multi_indices map ravel pick].
+    set (M := prod (map (@length nat) r)).
+    rewrite flat_map_concat_map.
+    assert (HU : Forall (fun b : list (list nat) => length b = M)
+                   (map (fun x => map (cons x) (multi_indices r)) p)).
+    { apply Forall_forall. intros b Hb. apply in_map_iff in Hb as [x [Hx _]]. subst b.
+      rewrite map_length. apply multi_indices_length. }
+    rewrite (nth_error_concat_uniform M) by (auto; apply ravel_lt; exact HF).
+    rewrite nth_error_map, (nth_error_nth' p 0%nat) by exact Hk. simpl.
+    rewrite nth_error_map, (IH kr HF). reflexivity.
+Qed.
+
+Section SubspaceB.
+Context {B : Type} (d : B).
+
+Lemma orth_take_length : forall shape pos (flat : list B),
+  length (orth_take d shape pos flat) = prod (map (@length nat) pos).
+Proof. intros. unfold orth_take. rewrite map_length. apply multi_indices_length. Qed.
+
+(* Element ks of the orthogonal selection (C order, shape = the numbers of
+   selected positions) is the element of the full array at the selected
+   position of every axis. *)
+Lemma orth_take_nth : forall shape pos (flat : list B) ks,
+  in_shape ks (map (@length nat) pos) ->
+  nth_error (orth_take d shape pos flat) (ravel (map (@length nat) pos) ks)
+  = Some (nth (ravel shape (pick pos ks)) flat d).
+Proof.
+  intros shape pos flat ks H. unfold orth_take. rewrite nth_error_map, (multi_indices_nth pos ks H).
+  reflexivity.
+Qed.
+
+(* a 2-d array flattened in C order *)
+Lemma nth_concat_2d : forall w (u : list (list B)) i j,
+  Forall (fun r => length r = w) u -> (j < w)%nat ->
+  nth (ravel [length u; w] [i; j]) (concat u) d = nth j (nth i u []) d.
+Proof.
+  intros w u i j HF Hj. replace (ravel [length u; w] [i; j]) with (i * w + j)%nat by (simpl; lia).
+  destruct (nth_error u i) as [r|] eqn:E.
+  - assert (G : nth_error (concat u) (i * w + j) = nth_error r j).
+    { rewrite (nth_error_concat_uniform w) by assumption. rewrite E. reflexivity. }
+    rewrite (nth_error_nth _ _ _ E).
+    assert (Hr : length r = w) by (rewrite Forall_forall in HF; apply HF; eapply nth_error_In; eauto).
+    destruct (nth_error r j) as [x|] eqn:Ex; [|apply nth_error_None in Ex; lia].
+    rewrite (nth_error_nth _ _ _ G), (nth_error_nth _ _ _ Ex). reflexivity.
+  - assert (G : nth_error (concat u) (i * w + j) = None).
+    { rewrite (nth_error_concat_uniform w) by assumption. rewrite E. reflexivity. }
+    apply nth_error_None in G. rewrite nth_overflow by exact G.
+    apply nth_error_None in E. rewrite (nth_overflow u) by exact E. destruct j; reflexivity.
+Qed.
+
+End SubspaceB.
+
+(* the positions an index selects on an axis are positions of the axis *)
+Definition valid_index (n : nat) (i : aindex) : Prop :=
+  match i with
+  | AInt x => (- Z.of_nat n <= x < Z.of_nat n)%Z
+  | ASlice _ _ c => c <> Some 0%Z
+  | AList l => Forall (fun x => (- Z.of_nat n <= x < Z.of_nat n)%Z) l
+  end.
+
+Lemma slice_positions_py : forall n a b c, c <> Some 0%Z ->
+  PySlice.slice_positions n a b c = Some (slice_positions n a b c).
+Proof.
+  intros n a b c Hc. unfold PySlice.slice_positions, slice_positions.
+  set (step := match c with Some s0 => s0 | None => 1%Z end).
+  assert (Hs : step <> 0%Z) by (unfold step; destruct c as [z|]; [intro; subst; congruence|lia]).
+  replace (match c with Some s0 => s0 | None => 1%Z end) with step by reflexivity.
+  destruct (Z.eqb_spec step 0); [contradiction|]. f_equal.
+  assert (Ea : PySlice.slice_start n a step = adjust n step a 0 (n - 1)).
+  { unfold PySlice.slice_start, adjust, PySlice.clip. destruct a as [x|]; [|reflexivity].
+    destruct (x <? 0)%Z; [reflexivity|].
+    destruct (Z.geb_spec x n); destruct (Z.leb_spec n x); try lia; reflexivity. }
+  assert (Eb : PySlice.slice_stop n b step = adjust n step b n (-1)).
+  { unfold PySlice.slice_stop, adjust, PySlice.clip. destruct b as [x|]; [|reflexivity].
+    destruct (x <? 0)%Z; [reflexivity|].
+    destruct (Z.geb_spec x n); destruct (Z.leb_spec n x); try lia; reflexivity. }
+  unfold PySlice.range_list. rewrite Ea, Eb.
+  set (start := adjust n step a 0 (n - 1)). set (stop := adjust n step b n (-1)).
+  assert (El : PySlice.range_len start stop step =
+               (if (step <? 0)%Z then (if (stop <? start)%Z then ((start - stop - 1) / (- step) + 1)%Z else 0%Z)
+                else if (0 <? step)%Z then (if (start <? stop)%Z then ((stop - start - 1) / step + 1)%Z else 0%Z)
+                else 0%Z)).
+  { unfold PySlice.range_len. destruct (Z.gtb_spec step 0); destruct (Z.ltb_spec step 0);
+      destruct (Z.ltb_spec 0 step); try lia; reflexivity. }
+  rewrite El. reflexivity.
+Qed.
+
+Lemma axis_positions_in_range : forall n i, valid_index n i ->
+  Forall (fun p => (p < n)%nat) (axis_positions n i).
+Proof.
+  intros n i H. destruct i as [x|a b c|l]; simpl in *.
+  - constructor; [|constructor]. destruct (Z.ltb_spec x 0); lia.
+  - apply Forall_forall. intros p Hp. apply in_map_iff in Hp as [z [Hz Hin]]. subst p.
+    pose proof (slice_positions_py (Z.of_nat n) a b c H) as E.
+    pose proof (PySlice.slice_positions_in_range (Z.of_nat n) a b c _ z (Nat2Z.is_nonneg n) E Hin). lia.
+  - apply Forall_forall. intros p Hp. apply in_map_iff in Hp as [z [Hz Hin]]. subst p.
+    rewrite Forall_forall in H. specialize (H z Hin). destruct (Z.ltb_spec z 0); lia.
+Qed.
+
+(* End to end for the contiguous ragged array: element (k0, k1) of the
+   subspace d[i0, i1] of the compressed data is the CF-defined element at the
+   positions that i0 and i1 select. *)
+Lemma subspace_contiguous : forall {A} (miss : A) nrows w counts (data : list A) i0 i1,
+  Forall (fun c => (c <= w)%nat) counts ->
+  valid_index nrows i0 -> valid_index w i1 ->
+  exists u, contiguous_decode miss nrows w counts data = Ok u /\
+    let p0 := axis_positions nrows i0 in
+    let p1 := axis_positions w i1 in
+    let s := subspace miss [nrows; w] [i0; i1] (concat u) in
+    length s = (length p0 * length p1)%nat /\
+    forall k0 k1, (k0 < length p0)%nat -> (k1 < length p1)%nat ->
+      nth (k0 * length p1 + k1) s miss = contig_spec miss counts data (nth k0 p0 0%nat) (nth k1 p1 0%nat).
+Proof.
+  intros A miss nrows w counts data i0 i1 Hc H0 H1.
+  destruct (contiguous_decode_spec miss nrows w counts data Hc) as [u [Hu [Hl [Hf Hn]]]].
+  exists u. split; [exact Hu|]. cbv zeta.
+  set (p0 := axis_positions nrows i0). set (p1 := axis_positions w i1).
+  unfold subspace. cbn [combine map fst snd]. fold p0 p1. split.
+  - rewrite orth_take_length. simpl. lia.
+  - intros k0 k1 Hk0 Hk1.
+    assert (Hin : in_shape [k0; k1] (map (@length nat) [p0; p1])) by (repeat constructor; assumption).
+    pose proof (orth_take_nth miss [nrows; w] [p0; p1] (concat u) [k0; k1] Hin) as E.
+    cbn [map pick] in E.
+    replace (ravel [length p0; length p1] [k0; k1]) with (k0 * length p1 + k1)%nat in E by (simpl; lia).
+    apply nth_error_nth with (d := miss) in E.
+    rewrite E. clear E.
+    pose proof (axis_positions_in_range nrows i0 H0) as R0. fold p0 in R0.
+    pose proof (axis_positions_in_range w i1 H1) as R1. fold p1 in R1.
+    rewrite Forall_forall in R0, R1.
+    assert (Hq0 : (nth k0 p0 0 < nrows)%nat) by (apply R0, nth_In, Hk0).
+    assert (Hq1 : (nth k1 p1 0 < w)%nat) by (apply R1, nth_In, Hk1).
+    rewrite <- Hn by exact Hq0. rewrite <- Hl.
+    apply nth_concat_2d; assumption.
+Qed.
+
+(* ------------------------------------------------------------------ *)
+(* non-vacuity examples                                                 *)
 (* ------------------------------------------------------------------ *)
 Open Scope Z_scope.
-
-(* Without the guard [fits] (values of the field within the counts derived
-   from the auxiliary coordinate) the round trip loses data: the counts come
-   from the coordinate, the field value 99 beyond them is dropped. *)
-Lemma compress_beyond_count_refuted :
-  exists w (src rows : list (list (option Z))),
-    Forall (fun r => length r = w) src /\ Forall (fun r => length r = w) rows /\
-    length src = length rows /\
-    contiguous_decode None (length rows) w (map derive_count src)
-                      (pack (map derive_count src) rows) <> Ok rows.
-Proof.
-  exists 3%nat, [[Some 100; None; None]], [[Some 1; None; Some 99]].
-  splits; try (repeat constructor). vm_compute. discriminate.
-Qed.
 
 Lemma contiguous_decode_example :
   exists counts (data : list (option Z)) u,
@@ -970,12 +1537,28 @@ Proof.
   repeat constructor; simpl; intuition lia.
 Qed.
 
+(* non-vacuity of the compress theorems: a field with an all-missing row and an
+   interior missing value, and an auxiliary coordinate that is shorter than
+   the field in one row and longer in another *)
 Lemma roundtrip_example :
-  exists (rows : list (list (option Z))),
-    Forall2 (fits 3) rows rows /\ In [None; None; None] rows /\ In [Some 1; None; Some 3] rows.
+  exists (rows aux : list (list (option Z))),
+    rect 3 3 rows /\ Forall (rect 3 3) [aux] /\
+    In [None; None; None] rows /\ In [Some 1; None; Some 3] rows /\
+    derive_counts rows [aux] = [3; 2; 1]%nat.
 Proof.
-  exists [[Some 1; None; Some 3]; [None; None; None]; [Some 4; None; None]].
-  splits; [|simpl; auto|simpl; auto].
+  exists [[Some 1; None; Some 3]; [None; None; None]; [Some 4; None; None]],
+         [[Some 100; None; None]; [Some 101; Some 102; None]; [Some 103; None; None]].
+  splits; [split; [reflexivity|repeat constructor]|repeat constructor|simpl; auto|simpl; auto|reflexivity].
+Qed.
+
+Lemma roundtrip_ic_example :
+  exists (rows : list (list (list (option Z)))) cs,
+    covers3 3 2 cs rows /\
+    cs = [[0; 1; 2]; [2; 0; 0]]%nat /\
+    compress_ic cs rows = ([0; 1; 2; 2]%nat, [0; 0; 0; 1], [Some 3; Some 5; Some 6; Some 7; Some 8]).
+Proof.
+  exists [[[None; None]; [Some 3; None]; [Some 5; Some 6]]; [[Some 7; Some 8]; [None; None]; [None; None]]].
+  eexists. splits; [|reflexivity|reflexivity].
   repeat constructor; simpl; lia.
 Qed.
 
